@@ -129,7 +129,32 @@ class World(object):
             data, _ = serialize(recipe.gen_doc(self.rng, 2, 2))
 
         def f():
-            self.trees.append(self.reader.parse(io.BytesIO(data)))
+            shared_exc = fresh_exc = None
+            try:
+                t = self.reader.parse(io.BytesIO(data))
+            except Exception as e:
+                shared_exc = e
+            try:
+                ref = self.DiffX.from_bytes(data)
+            except Exception as e:
+                fresh_exc = e
+            self.obs.count('shared_vs_fresh_parse_compared')
+            if (shared_exc is None) != (fresh_exc is None):
+                self.obs.violation(
+                    'shared_reader_result_differs_from_fresh:outcome',
+                    self.case(), {'shared': repr(shared_exc)[:200],
+                                  'fresh': repr(fresh_exc)[:200]})
+                self.failed = True
+            elif shared_exc is None:
+                if not treesnap.equal(treesnap.snapshot(t),
+                                      treesnap.snapshot(ref)):
+                    d = treesnap.first_diff(treesnap.snapshot(ref),
+                                            treesnap.snapshot(t))
+                    self.obs.violation(
+                        'shared_reader_result_differs_from_fresh:tree',
+                        self.case(), {'path': d[0], 'what': d[1]})
+                    self.failed = True
+                self.trees.append(t)
         self.step('parse_shared_reader', None, f, True)
 
     def op_serialise_writer(self):
@@ -137,8 +162,32 @@ class World(object):
 
         def f():
             s = io.BytesIO()
-            self.writer.write_stream(self.trees[i], s)
-            self.bytes_pool.append(s.getvalue())
+            shared_exc = fresh_exc = None
+            try:
+                self.writer.write_stream(self.trees[i], s)
+            except Exception as e:
+                shared_exc = e
+            try:
+                ref = self.trees[i].to_bytes()
+            except Exception as e:
+                fresh_exc = e
+            self.obs.count('shared_vs_fresh_serialisation_compared')
+            if (shared_exc is None) != (fresh_exc is None) or (
+                    shared_exc is not None and
+                    type(shared_exc) is not type(fresh_exc)):
+                self.obs.violation(
+                    'shared_writer_result_differs_from_fresh:outcome',
+                    self.case(), {'shared': repr(shared_exc)[:200],
+                                  'fresh': repr(fresh_exc)[:200]})
+                self.failed = True
+            elif shared_exc is None:
+                if s.getvalue() != ref:
+                    self.obs.violation(
+                        'shared_writer_result_differs_from_fresh:bytes',
+                        self.case(), {'shared': s.getvalue()[:200],
+                                      'fresh': ref[:200]})
+                    self.failed = True
+                self.bytes_pool.append(s.getvalue())
         self.step('serialise_shared_writer', i, f, False)
 
     def op_to_bytes_twice(self):
